@@ -78,7 +78,7 @@ class AdvertisingDrv(Drv):
     family = "advertising"
     covers = ("Advertiser", "AdPlatform", "AudienceTier")
     ops = ("sentiment_drop", "sentiment_up")
-    cfgs = ("zero", "odd_zero")
+    cfgs = ("zero", "odd_zero", "dec_a", "dec_b")
 
     def build(self, cfg):
         self.platform = AdPlatform("platform")
